@@ -439,7 +439,7 @@ class Stmts:
         return c
 
     def assume_spec(self, expr: str, fr: Frame) -> None:
-        self.path.assume(self.truthy(self.eval_spec(expr, fr)))
+        self.assume_term(self.truthy(self.eval_spec(expr, fr)))
 
     def oblige_spec(self, name: str, expr: str, kind: str, node: Any, fr: Frame, twin: bool = False) -> None:
         from .path import Obligation
@@ -449,7 +449,7 @@ class Stmts:
         key = f"{fname}:{kind}:{name}@{self.rel(fr, line)}"
         o = Obligation(key, kind, fname, line, expr)
         o.twin = twin
-        self.path.oblige(goal, o, assume_after=not twin)
+        self.path.oblige(self.goal_term(goal), o, assume_after=not twin)
 
     def setup_folds(self, spec: Loop, seq_get: Any, fr: Frame) -> Dict[str, Any]:
         fns = {}
@@ -519,6 +519,11 @@ class Stmts:
         idx = spec.index
         fr.env[idx] = VInt(0)
         fns = self.setup_folds(spec, get, fr)
+        seq_t = it.t if isinstance(it, VStr) else None
+        for g in spec.use_gfolds:
+            if seq_t is None:
+                raise Unsupported("global folds are defined over strings")
+            self.gfold_instantiate(g, seq_t, None, NONE, fr, True)
         for nm, ex in spec.invariants:
             self.oblige_spec(nm, ex, "loop-inv-entry", st, fr)
         rebound, mutated = self.assigned_names(st.body)
@@ -528,6 +533,7 @@ class Stmts:
         i = z3.Int(self.path.fresh_name(idx))
         fr.env[idx] = VInt(i)
         self.path.add_fact(z3.And(i >= 0, i <= n_term))
+        self.register_index(i)
         for nm, ex in spec.invariants:
             self.assume_spec(ex, fr)
         if arbitrary:
@@ -537,6 +543,8 @@ class Stmts:
             for ex in spec.elem_facts:
                 self.assume_spec(ex, fr)
             self.step_folds(fns, i, elem, fr)
+            for g in spec.use_gfolds:
+                self.gfold_instantiate(g, seq_t, i, elem, fr, False)
             try:
                 try:
                     self.ex_block(st.body, fr)
